@@ -208,6 +208,15 @@ Variable cfg : list dcfg.
 
 Definition en (s : state) (i : nat) : bool := enabled (dev s i).
 
+(* the rules of devices i and j use different (switch, coil) keys *)
+Definition disj (i j : nat) : Prop :=
+  forall k, In k (keys_of (cf cfg i)) -> In k (keys_of (cf cfg j)) -> False.
+(* enabling device i now does not write over a rule of another enabled device *)
+Definition compat (s : state) (i : nat) : Prop :=
+  forall j, j <> i -> (j < length cfg)%nat -> en s j = true -> disj i j.
+Lemma disj_sym i j : disj i j -> disj j i.
+Proof. intros H k A B. exact (H k B A). Qed.
+
 Definition tbl_ok (s : state) : Prop :=
   forall kv, In kv (tbl s) <->
              exists i, (i < length cfg)%nat /\ en s i = true /\ In kv (entries_of (cf cfg i)).
@@ -220,7 +229,11 @@ Record Inv (s : state) : Prop := mkInv {
   inv_nodup : NoDup (map fst (tbl s));
   inv_err : err s = false;
   inv_mgr : forall i, mgr (dev s i) <> None -> has_mgr (cf cfg i) = true /\ en s i = true;
-  inv_tmr : forall i, has_tmr (TReenable i) (timers s) = true -> is_flip (cf cfg i) = false
+  inv_tmr : forall i, has_tmr (TReenable i) (timers s) = true -> is_flip (cf cfg i) = false;
+  (* devices that are enabled at the same time do not share a key (static under [wf]; for flippers that share button
+     and coil it holds because the disable handlers of an event run before its enable handlers) *)
+  inv_excl : forall i j, i <> j -> (i < length cfg)%nat -> (j < length cfg)%nat ->
+                         en s i = true -> en s j = true -> disj i j
 }.
 
 (* steps that leave the table, the enabled flags and the remembered rules alone *)
@@ -244,7 +257,7 @@ Qed.
 
 Lemma frame_inv s s' : frame s s' -> Inv s -> Inv s'.
 Proof.
-  intros (F1 & F2 & F3 & F4 & F5) I. destruct I as [L R T N E M TM].
+  intros (F1 & F2 & F3 & F4 & F5) I. destruct I as [L R T N E M TM X].
   assert (EN : forall i, en s' i = en s i) by (intros i; unfold en; apply F4).
   constructor.
   - congruence.
@@ -254,6 +267,7 @@ Proof.
   - congruence.
   - intros i H. rewrite EN. apply M. apply F4, H.
   - intros i H. apply TM, F5, H.
+  - intros i j NE Li Lj Ei Ej. rewrite EN in Ei, Ej. eapply X; eauto.
 Qed.
 
 Lemma frame_w_dev s i d :
@@ -338,7 +352,8 @@ Proof.
   intros j. proj. apply has_tmr_filter.
 Qed.
 
-Hypothesis W : wf cfg.
+Hypothesis W1 : forall i, NoDup (keys_of (cf cfg i)).
+
 
 Lemma NoDup_app_intro {A} (a b : list A) :
   NoDup a -> NoDup b -> (forall x, In x a -> In x b -> False) -> NoDup (a ++ b).
@@ -374,22 +389,20 @@ Qed.
 Lemma key_in_entries k v c : In (k, v) (entries_of c) -> In k (keys_of c).
 Proof. intros H. unfold keys_of. apply in_map_iff. exists (k, v). split; [reflexivity | exact H]. Qed.
 
-Lemma inv_enable s i : Inv s -> Inv (dev_enable cfg s i).
+Lemma g_inv_enable s i : Inv s -> compat s i -> Inv (dev_enable cfg s i).
 Proof.
-  intros I. destruct (enabled (dev s i)) eqn:E.
+  intros I CP. destruct (enabled (dev s i)) eqn:E.
   { unfold dev_enable. rewrite E. exact I. }
   destruct (dev_enable_proj s i E) as (PT & PE & PD & PTM).
   set (s' := dev_enable cfg s i) in *. set (c := cf cfg i) in *.
-  assert (KN : NoDup (map fst (entries (rules_of c)))) by (apply (wf_keys_nodup cfg i W)).
+  assert (KN : NoDup (map fst (entries (rules_of c)))) by (apply (W1 i)).
   assert (OUT : (length cfg <= i)%nat -> entries (rules_of c) = []).
   { intros Li. unfold c. rewrite cf_overflow by exact Li. reflexivity. }
   assert (DJ : forall k, In k (map fst (entries (rules_of c))) -> ~ In k (map fst (tbl s))).
   { intros k Hk Ht. apply in_map_iff in Ht as [[k' v] [Ek Ht]]. cbn in Ek; subst k'.
     apply (inv_tbl _ I) in Ht as (j & Lj & Ej & Hj).
     destruct (Nat.eq_dec j i) as [->|NE]. { unfold en in Ej. congruence. }
-    destruct (Nat.lt_ge_cases i (length cfg)) as [Li|Li].
-    - eapply (wf_keys_disj cfg i j k W Li Lj); [congruence | exact Hk | eapply key_in_entries; exact Hj].
-    - rewrite OUT in Hk by exact Li. exact Hk. }
+    eapply (CP j NE Lj Ej k); [exact Hk | eapply key_in_entries; exact Hj]. }
   rewrite install_ok in PT, PE by assumption. cbn [fst snd] in PT, PE.
   assert (DV : forall j, dev s' j = if Nat.eqb j i && Nat.ltb i (length (devs s))
                                     then enabled_dev c (dev s i) else dev s j).
@@ -423,6 +436,12 @@ Proof.
       intros M. apply (inv_mgr _ I) in M as [M _]. fold c in M. congruence.
     + apply (inv_mgr _ I j).
   - intros j H. apply (inv_tmr _ I), PTM, H.
+  - intros a b NE La Lb Ea Eb.
+    destruct (Nat.eq_dec a i) as [->|NA]; destruct (Nat.eq_dec b i) as [->|NB].
+    + congruence.
+    + unfold en in Eb. rewrite DVo in Eb by exact NB. apply (CP b NB Lb Eb).
+    + unfold en in Ea. rewrite DVo in Ea by exact NA. apply disj_sym, (CP a NA La Ea).
+    + unfold en in Ea, Eb. rewrite DVo in Ea, Eb by assumption. apply (inv_excl _ I a b); assumption.
 Qed.
 
 Lemma mgr_in_range s i : mgr (dev s i) <> None -> (i < length (devs s))%nat.
@@ -511,13 +530,18 @@ Proof.
     + intros (j & Lj & Ej & Hj).
       assert (NE : j <> i) by (intros ->; unfold en in Ej; congruence).
       split; [exists j; rewrite <- ENo by exact NE; auto|].
-      intros K. destruct kv as [k v]. eapply (wf_keys_disj cfg i j k W Li Lj); [congruence | exact K |].
+      intros K. destruct kv as [k v]. rewrite ENo in Ej by exact NE.
+      eapply (inv_excl _ I i j); [congruence | exact Li | exact Lj | exact E | exact Ej | exact K |].
       eapply key_in_entries, Hj.
   - rewrite DT. apply NoDup_uninstall, (inv_nodup _ I).
   - rewrite DE. apply (inv_err _ I).
   - intros j M. destruct (Nat.eq_dec j i) as [->|NE]; [congruence|].
     destruct (DO j NE) as (_ & _ & A). rewrite A in M. rewrite ENo by exact NE. apply (inv_mgr _ I j M).
   - intros j H. apply (inv_tmr _ I), DTM, H.
+  - intros a b NE La Lb Ea Eb.
+    assert (NA : a <> i) by (intros ->; unfold en in Ea; congruence).
+    assert (NB : b <> i) by (intros ->; unfold en in Eb; congruence).
+    rewrite ENo in Ea, Eb by assumption. apply (inv_excl _ I a b); assumption.
 Qed.
 
 Lemma keys_of_rule_keys c : rule_keys (rules_of c) = keys_of c.
@@ -594,26 +618,42 @@ Proof.
   assert (I1 : Inv s1) by (eapply frame_inv; [apply frame_w_dev; cbn; auto | exact I]).
   destruct (d_maxhits (cf cfg i) <=? _); [|exact I1].
   pose proof (inv_disable s1 i I1) as I2. set (s2 := dev_disable cfg s1 i) in *.
-  destruct I2 as [L R T N E M TM]. constructor; auto.
+  destruct I2 as [L R T N E M TM X]. constructor; auto.
   intros j H. proj. apply has_tmr_add in H as [H|H]; [|apply TM, H].
   inversion H; subst. exact F.
 Qed.
 
-Lemma inv_fire s x : Inv s -> Inv (fire cfg s x).
+(* an action is admissible when an enable it performs does not collide with an enabled device *)
+Definition act_ok (s : state) (a : act) : Prop :=
+  match a with
+  | AEnable i => compat s i
+  | AFire (TReenable i) => has_tmr (TReenable i) (timers s) = true -> compat s i
+  | _ => True
+  end.
+Fixpoint acts_ok (s : state) (l : list act) : Prop :=
+  match l with [] => True | a :: l' => act_ok s a /\ acts_ok (do_act cfg s a) l' end.
+Definition step_ok (s : state) (o : op) : Prop :=
+  let s0 := w_log s [] in
+  acts_ok s0 (acts_of cfg s0 o) /\
+  let s1 := run_acts cfg s0 (acts_of cfg s0 o) in acts_ok s1 (due_acts s1 (now s1)).
+Fixpoint ops_ok (s : state) (l : list op) : Prop :=
+  match l with [] => True | o :: l' => step_ok s o /\ ops_ok (step cfg s o) l' end.
+
+Lemma g_inv_fire s x : Inv s -> act_ok s (AFire x) -> Inv (fire cfg s x).
 Proof.
-  intros I. unfold fire. destruct (has_tmr x (timers s)); [|exact I].
+  intros I A. unfold fire. destruct (has_tmr x (timers s)) eqn:HX; [|exact I].
   assert (I1 : Inv (w_timers s (del_tmr x (timers s)))).
   { eapply frame_inv; [|exact I]. apply frame_w_timers. intros j. apply has_tmr_del. }
   destruct x.
-  - apply inv_enable, I1.
+  - apply g_inv_enable; [exact I1 | exact (A HX)].
   - eapply frame_inv; [apply frame_release | exact I1].
   - eapply frame_inv; [apply frame_eos_long | exact I1].
 Qed.
 
-Lemma inv_act s a : Inv s -> Inv (do_act cfg s a).
+Lemma g_inv_act s a : Inv s -> act_ok s a -> Inv (do_act cfg s a).
 Proof.
-  intros I. destruct a; cbn [do_act].
-  - apply inv_enable, I.
+  intros I A. destruct a; cbn [do_act].
+  - apply g_inv_enable; assumption.
   - apply inv_disable, I.
   - eapply frame_inv; [apply frame_flip | exact I].
   - eapply frame_inv; [apply frame_release | exact I].
@@ -624,21 +664,32 @@ Proof.
   - eapply frame_inv; [apply frame_eos_off | exact I].
   - eapply frame_inv; [apply frame_set_sw | exact I].
   - eapply frame_inv; [apply frame_w_now | exact I].
-  - apply inv_fire, I.
+  - apply g_inv_fire; assumption.
 Qed.
 
-Lemma inv_acts l : forall s, Inv s -> Inv (run_acts cfg s l).
-Proof. induction l as [|a l IH]; intros s I; cbn; [exact I | apply IH, inv_act, I]. Qed.
-
-Lemma inv_step s o : Inv s -> Inv (step cfg s o).
+Lemma g_inv_acts l : forall s, Inv s -> acts_ok s l -> Inv (run_acts cfg s l).
 Proof.
-  intros I. unfold step. apply inv_acts, inv_acts. eapply frame_inv; [apply frame_w_log | exact I].
+  induction l as [|a l IH]; intros s I A; cbn; [exact I|]. destruct A as [A1 A2].
+  apply IH; [apply g_inv_act; assumption | exact A2].
 Qed.
+
+Lemma g_inv_step s o : Inv s -> step_ok s o -> Inv (step cfg s o).
+Proof.
+  intros I [A1 A2]. unfold step. apply g_inv_acts; [|exact A2].
+  apply g_inv_acts; [|exact A1]. eapply frame_inv; [apply frame_w_log | exact I].
+Qed.
+
+Lemma g_inv_run ops : forall s, Inv s -> ops_ok s ops -> Inv (run_ops cfg s ops).
+Proof.
+  induction ops as [|o l IH]; intros s I A; cbn; [exact I|]. destruct A as [A1 A2].
+  apply IH; [apply g_inv_step; assumption | exact A2].
+Qed.
+
 
 Lemma inv_init : Inv (init cfg).
 Proof.
   assert (D : forall i, dev (init cfg) i = ds0).
-  { intros i. unfold dev, init. cbn [devs]. clear W. revert i.
+  { intros i. unfold dev, init. cbn [devs]. clear W1. revert i.
     induction cfg as [|c l IH]; intros [|i]; cbn; auto. }
   constructor.
   - cbn. apply map_length.
@@ -648,10 +699,61 @@ Proof.
   - reflexivity.
   - intros i. rewrite D. cbn. congruence.
   - intros i. cbn. discriminate.
+  - intros i j _ _ _ E. unfold en in E. rewrite D in E. discriminate.
 Qed.
 
+
+
+(* enable is idempotent: the second call changes nothing and makes no platform call *)
+Lemma enable_idem s i : (i < length (devs s))%nat ->
+  dev_enable cfg (dev_enable cfg s i) i = dev_enable cfg s i.
+Proof.
+  intros R. destruct (enabled (dev s i)) eqn:E.
+  - unfold dev_enable. rewrite E. rewrite E. reflexivity.
+  - destruct (dev_enable_proj s i E) as (_ & _ & PD & _).
+    set (s' := dev_enable cfg s i) in *.
+    assert (E' : enabled (dev s' i) = true).
+    { unfold dev. rewrite PD, nth_upd, Nat.eqb_refl. apply Nat.ltb_lt in R. rewrite R. reflexivity. }
+    unfold dev_enable at 1. rewrite E'. reflexivity.
+Qed.
+End Invariant.
+
+(* ------------------------------------------------------------------------------------------ *)
+(* well-formed configurations: no two devices share a key, so every enable is admissible *)
+Section InvariantWF.
+Variable cfg : list dcfg.
+Hypothesis W : wf cfg.
+Local Notation Inv := (Inv cfg).
+Local Notation disabled_from := (disabled_from cfg).
+
+Lemma wf_W1 i : NoDup (keys_of (cf cfg i)).
+Proof. apply wf_keys_nodup, W. Qed.
+Lemma wf_compat s i : compat cfg s i.
+Proof.
+  intros j NE Lj _ k K1 K2. destruct (Nat.lt_ge_cases i (length cfg)) as [Li|Li].
+  - eapply (wf_keys_disj cfg i j k W Li Lj); [congruence | exact K1 | exact K2].
+  - rewrite cf_overflow in K1 by exact Li. exact K1.
+Qed.
+Lemma wf_act_ok s a : act_ok cfg s a.
+Proof. destruct a; cbn; auto; try apply wf_compat. destruct x; auto. intros _. apply wf_compat. Qed.
+Lemma wf_acts_ok l : forall s, acts_ok cfg s l.
+Proof. induction l as [|a l IH]; intros s; cbn; [exact I | split; [apply wf_act_ok | apply IH]]. Qed.
+
+Lemma inv_enable s i : Inv s -> Inv (dev_enable cfg s i).
+Proof. intros I. apply g_inv_enable; [apply wf_W1 | exact I | apply wf_compat]. Qed.
+Lemma inv_fire s x : Inv s -> Inv (fire cfg s x).
+Proof. intros I. apply g_inv_fire; [apply wf_W1 | exact I | apply wf_act_ok]. Qed.
+Lemma inv_act s a : Inv s -> Inv (do_act cfg s a).
+Proof. intros I. apply g_inv_act; [apply wf_W1 | exact I | apply wf_act_ok]. Qed.
+Lemma inv_acts l : forall s, Inv s -> Inv (run_acts cfg s l).
+Proof. intros s I. apply g_inv_acts; [apply wf_W1 | exact I | apply wf_acts_ok]. Qed.
+Lemma inv_step s o : Inv s -> Inv (step cfg s o).
+Proof.
+  intros I. unfold step. apply inv_acts, inv_acts. eapply frame_inv; [apply frame_w_log | exact I].
+Qed.
 Lemma inv_run ops : forall s, Inv s -> Inv (run_ops cfg s ops).
 Proof. induction ops as [|o l IH]; intros s I; cbn; [exact I | apply IH, inv_step, I]. Qed.
+
 
 (* ------------------------------------------------------------------------------------------ *)
 (* a device that is off stays off (and without rules) until something enables it *)
@@ -669,7 +771,7 @@ Lemma quiet_enable_other s i j : j <> i -> quiet s i -> quiet (dev_enable cfg s 
 Proof.
   intros NE [Q1 Q2]. destruct (enabled (dev s j)) eqn:E.
   { unfold dev_enable. rewrite E. split; assumption. }
-  destruct (dev_enable_proj s j E) as (_ & _ & PD & PTM). split.
+  destruct (dev_enable_proj cfg s j E) as (_ & _ & PD & PTM). split.
   - unfold en, dev. rewrite PD, nth_upd. apply Nat.eqb_neq in NE. rewrite Nat.eqb_sym in NE. 
     replace (Nat.eqb i j) with false by (symmetry; rewrite Nat.eqb_sym; exact NE). exact Q1.
   - destruct (has_tmr (TReenable i) (timers (dev_enable cfg s j))) eqn:H; [|reflexivity].
@@ -683,7 +785,7 @@ Proof.
   set (s0 := w_timers s (del_tmr (TReenable i) (timers s))).
   assert (T0 : has_tmr (TReenable i) (timers s0) = false) by apply has_tmr_del_same.
   destruct (enabled (dev s0 i)); [|exact T0].
-  match goal with |- context [clear_rules cfg ?a i ?r] => destruct (clear_rules_proj a i r) as (_ & _ & _ & _ & _ & CTM) end.
+  match goal with |- context [clear_rules cfg ?a i ?r] => destruct (clear_rules_proj cfg a i r) as (_ & _ & _ & _ & _ & CTM) end.
   match goal with |- ?x = false => destruct x eqn:H; [|reflexivity] end.
   apply CTM in H. proj. congruence.
 Qed.
@@ -691,7 +793,7 @@ Qed.
 Lemma quiet_disable s i j : Inv s -> quiet s i -> quiet (dev_disable cfg s j) i.
 Proof.
   intros I Q. destruct (en s j) eqn:E.
-  - destruct (disable_disabled_from s j I E) as (_ & _ & _ & DEn & _ & _ & DO & DTM).
+  - destruct (disable_disabled_from cfg s j I E) as (_ & _ & _ & DEn & _ & _ & DO & DTM).
     destruct Q as [Q1 Q2]. split.
     + unfold en. destruct (Nat.eq_dec i j) as [->|NE]; [exact DEn|]. destruct (DO i NE) as (X & _).
       unfold en in Q1. congruence.
@@ -704,15 +806,15 @@ Qed.
 
 Lemma disable_quiet s i : Inv s -> quiet (dev_disable cfg s i) i.
 Proof.
-  intros I. pose proof (inv_disable s i I) as I'. split.
+  intros I. pose proof (inv_disable cfg s i I) as I'. split.
   - destruct (en s i) eqn:E.
-    + destruct (disable_disabled_from s i I E) as (_ & _ & _ & DEn & _). exact DEn.
+    + destruct (disable_disabled_from cfg s i I E) as (_ & _ & _ & DEn & _). exact DEn.
     + unfold en in *. unfold dev_disable. destruct (is_flip (cf cfg i)); [rewrite E; exact E|].
       set (s0 := w_timers s (del_tmr (TReenable i) (timers s))).
       assert (D0 : dev s0 i = dev s i) by reflexivity. rewrite D0, E. exact E.
   - destruct (is_flip (cf cfg i)) eqn:F; [|apply disable_no_reenable, F].
     match goal with |- ?x = false => destruct x eqn:H; [|reflexivity] end.
-    apply (inv_tmr _ I') in H. congruence.
+    apply (inv_tmr _ _ I') in H. congruence.
 Qed.
 
 Lemma quiet_hit s i j : Inv s -> quiet s i -> quiet (dev_hit cfg s j) i.
@@ -821,6 +923,7 @@ Proof.
   - destruct (fst (sget w (sws s))); [|contradiction]. destruct H as [H|H]; [discriminate|].
     rewrite !in_app_iff in H. destruct H as [H|H]; apply in_sel in H as (j & E & _); discriminate.
   - eapply due_no_enable, H.
+  - eapply due_no_enable, H.
 Qed.
 
 Lemma quiet_step s i o : Inv s -> quiet s i -> passive i o -> quiet (step cfg s o) i.
@@ -855,25 +958,12 @@ Lemma off_no_keys s i k :
   Inv s -> (i < length cfg)%nat -> en s i = false -> In k (keys_of (cf cfg i)) -> has_key k (tbl s) = false.
 Proof.
   intros I L E K. apply has_key_false. intros H. apply in_map_iff in H as [[k' v] [Ek H]]. cbn in Ek; subst k'.
-  apply (inv_tbl _ I) in H as (j & Lj & Ej & Hj).
+  apply (inv_tbl _ _ I) in H as (j & Lj & Ej & Hj).
   destruct (Nat.eq_dec j i) as [->|NE]; [congruence|].
   eapply (wf_keys_disj cfg i j k W L Lj); [congruence | exact K | eapply key_in_entries, Hj].
 Qed.
 
-(* enable is idempotent: the second call changes nothing and makes no platform call *)
-Lemma enable_idem s i : (i < length (devs s))%nat ->
-  dev_enable cfg (dev_enable cfg s i) i = dev_enable cfg s i.
-Proof.
-  intros R. destruct (enabled (dev s i)) eqn:E.
-  - unfold dev_enable. rewrite E. rewrite E. reflexivity.
-  - destruct (dev_enable_proj s i E) as (_ & _ & PD & _).
-    set (s' := dev_enable cfg s i) in *.
-    assert (E' : enabled (dev s' i) = true).
-    { unfold dev. rewrite PD, nth_upd, Nat.eqb_refl. apply Nat.ltb_lt in R. rewrite R. reflexivity. }
-    unfold dev_enable at 1. rewrite E'. reflexivity.
-Qed.
-
-End Invariant.
+End InvariantWF.
 
 (* ------------------------------------------------------------------------------------------ *)
 (* statements used by Props.v *)
